@@ -809,6 +809,10 @@ def install_while(I):
                 if extra:
                     for i, c in enumerate(extra(I, h, fr)):
                         I.obligations.append((f"loop{ordinal}.inv_preserved[{i}]", list(h.pc), c, n.lineno))
+                # nodes built in an iteration are dropped with the path: their identifier fields are checked here
+                ic = ident_condition(h)
+                if ic is not None:
+                    I.obligations.append((f"loop{ordinal}.identifier_from_name_token", list(h.pc), z3.BoolVal(False) if ic is False else ic, n.lineno))
                 loc = h.frames[fr.fid]
                 for oid in entry_ids:
                     ho = h.heap.get(oid)
@@ -1073,29 +1077,7 @@ class ParseVC(VC):
     def p_ident(self, pre, out):
         if out.raised:
             return None
-        st = out.st
-        conds = []
-        toks = st.ghost.get("tokens", [])
-        for i in sorted(st.allocated):
-            h = st.heap[i]
-            if not (isinstance(h, HObj) and h.cls in IDENT_FIELDS) or getattr(h, "abstract_node", False):
-                continue
-            for f in IDENT_FIELDS[h.cls]:
-                v = h.fields.get(f)
-                if v is None and f not in h.fields:
-                    continue
-                if isinstance(v, Sym) and "ident_token" in v.tags:
-                    continue
-                if isinstance(v, str) and v.isidentifier():
-                    continue
-                srcs = [t for t in toks if isinstance(v, Sym) and st.get(t).fields["value"] is v or
-                        (isinstance(v, Sym) and isinstance(st.get(t).fields["value"], Sym) and st.get(t).fields["value"].t.eq(v.t))]
-                if not srcs:
-                    return False
-                conds.append(z3.Or(*[to_term(st.get(t).fields["type"], "str") == z3.StringVal("name") for t in srcs]))
-        if not conds:
-            return None
-        return z3.And(*conds)
+        return ident_condition(out.st)
 
     def p_effects(self, pre, out):
         eff = CALLEE_EFFECTS.get(self.method)
@@ -1134,6 +1116,32 @@ class ParseVC(VC):
     def finding_key(self, res):
         w = res.witness or {}
         return f"{w.get('method')}:{w.get('raises')}"
+
+
+def ident_condition(st):
+    """every identifier field of a node constructed on this path is the value of a `name` token (None: nothing to check,
+    False: a value of unknown origin)"""
+    conds = []
+    toks = st.ghost.get("tokens", [])
+    for i in sorted(st.allocated):
+        h = st.heap[i]
+        if not (isinstance(h, HObj) and h.cls in IDENT_FIELDS) or getattr(h, "abstract_node", False):
+            continue
+        for f in IDENT_FIELDS[h.cls]:
+            v = h.fields.get(f)
+            if v is None and f not in h.fields:
+                continue
+            if isinstance(v, Sym) and "ident_token" in v.tags:
+                continue
+            if isinstance(v, str) and v.isidentifier():
+                continue
+            srcs = [t for t in toks if isinstance(v, Sym) and isinstance(st.get(t).fields["value"], Sym) and st.get(t).fields["value"].t.eq(v.t)]
+            if not srcs:
+                return False
+            conds.append(z3.Or(*[to_term(st.get(t).fields["type"], "str") == z3.StringVal("name") for t in srcs]))
+    if not conds:
+        return None
+    return z3.And(*conds)
 
 
 def subparse_inv(w):
